@@ -184,3 +184,11 @@ Theorem C01_source_relu_plain_value_is_the_model : forall c (has_rub : bool) slo
   req (ReluCallGen.gen_qr_xq (qr_bits c) (qr_int c) false (qr_qclip c) has_rub slope rub x) (qr_val c x) = true.
 Proof. exact link_qr_xq_plain. Qed.
 Print Assumptions C01_source_relu_plain_value_is_the_model.
+(* the leaky form, negative_slope = 2^-s as the rational (1, 2^s): positive and negative part are rounded and clipped separately,
+   the sum is the model's code times the step -- for every s up to the number of non-sign bits *)
+Theorem C01_source_relu_leaky_value_is_the_model : forall c (has_rub : bool) s rub x,
+  qr_slope c = Some s -> 0 <= s <= qr_nsb c -> 0 < rden x -> 0 < rden rub ->
+  qr_rub c = (if has_rub then Some rub else None) ->
+  req (ReluCallGen.gen_qr_xq (qr_bits c) (qr_int c) true (qr_qclip c) has_rub (1, 2 ^ s) rub x) (qr_val c x) = true.
+Proof. exact link_qr_xq_leaky. Qed.
+Print Assumptions C01_source_relu_leaky_value_is_the_model.
